@@ -70,6 +70,12 @@ def apply_fault(spec, cols):
     elif k == "idbig":
         cols["pid"] = cols["pid"].copy()
         cols["pid"][fault_row(spec)] = 40000
+    elif k == "idwrap":   # outside 0..32767 but wraps to a valid id in a 16-bit integer
+        cols["pid"] = cols["pid"].copy()
+        cols["pid"][fault_row(spec)] = 65537
+    elif k == "idedge":   # first value outside the range
+        cols["pid"] = cols["pid"].copy()
+        cols["pid"][fault_row(spec)] = 32768
     elif k == "worker":
         cols["ra"] = cols["ra"].copy()
         cols["ra"][fault_row(spec)] = MARKER_RA_DEG
